@@ -11,6 +11,8 @@
 //	                   redeclaration `a, b := …` of a parameter keeps Go's meaning in the reference)
 //	YIELD(            Yield( / co.Yield(       ʏ.Yield(
 //	YFROM(            YieldFrom(               ʏ.From(
+//	YIELDT[T](        Yield[T]( / co.Yield[T]( ʏ.Yield(      (explicit instantiation of the API functions)
+//	YFROMT[T](        YieldFrom[T](            ʏ.From(
 //	RETNIL            return nil               return
 //	RETBARE           return                   return        (generators with a named blank result)
 //	OVER<<x>>OVER     x                        (x).All()
@@ -132,6 +134,12 @@ func Co(neutral, prefix string, st Style) string {
 		case strings.HasPrefix(s[i:], "COPKG·"):
 			b.WriteString(p)
 			i += len("COPKG·")
+		case strings.HasPrefix(s[i:], "YIELDT["):
+			b.WriteString(p + "Yield[")
+			i += 7
+		case strings.HasPrefix(s[i:], "YFROMT["):
+			b.WriteString(p + "YieldFrom[")
+			i += 7
 		case strings.HasPrefix(s[i:], "YIELD("):
 			b.WriteString(p + "Yield(")
 			i += 6
@@ -204,6 +212,18 @@ func Ref(neutral, prefix string) string {
 		case strings.HasPrefix(s[i:], "}GEN"):
 			b.WriteString("}) }")
 			i += 4
+		case strings.HasPrefix(s[i:], "YIELDT["), strings.HasPrefix(s[i:], "YFROMT["):
+			// the type argument list is dropped: the reference methods are not generic
+			end := matchBracket(s, i+6)
+			if end < 0 || end >= len(s) || s[end] != '(' {
+				panic("render: bad YIELDT / YFROMT marker")
+			}
+			if s[i+1] == 'I' {
+				b.WriteString("ʏ.Yield(")
+			} else {
+				b.WriteString("ʏ.From(")
+			}
+			i = end + 1
 		case strings.HasPrefix(s[i:], "YIELD("):
 			b.WriteString("ʏ.Yield(")
 			i += 6
